@@ -318,6 +318,7 @@ func runC14(c *config) {
 	}
 	c14Wide(c, newRng(c.seed, "c14wide"))
 	c14Consts(c, newRng(c.seed, "c14const"))
+	c14Metadata(c, newRng(c.seed, "c14md"))
 	for i := 0; i < 3000*c.scale; i++ {
 		np := r.intn(3)
 		named := []bool{r.coin(), r.coin(), r.coin()}
